@@ -43,6 +43,46 @@ pub proof fn lemma_rfc4648_len(src: Seq<u8>)
     if src.len() >= 3 { lemma_rfc4648_len(src.skip(3)); }
 }
 
+/// the table of the code IS Table 2 of the RFC (all 64 entries, by computation)
+pub proof fn lemma_alphabet()
+    ensures
+        //@@ C18:lemma.base64.alphabet
+        forall|i: int| 0 <= i < 64 ==> #[trigger] ALPHABET[i] == b64url_char(i),
+{
+    assert(forall|i: int| 0 <= i < 64 ==> #[trigger] ALPHABET[i] == b64url_char(i)) by (compute);
+}
+/// the shift-and-mask sextets of the code are the arithmetic sextets of the specification (bit-vector reasoning)
+pub proof fn lemma_b64_bits(a: u8, b: u8, c: u8)
+    ensures ({
+        let val = (a as usize) << 16 | (b as usize) << 8 | (c as usize);
+        &&& (val >> 18 & 0x3F) == a / 4
+        &&& (val >> 12 & 0x3F) == (a % 4) * 16 + b / 16
+        &&& (val >> 6 & 0x3F) == (b % 16) * 4 + c / 64
+        &&& (val & 0x3F) == c % 64
+    }),
+{
+    let val = (a as usize) << 16 | (b as usize) << 8 | (c as usize);
+    assert((val >> 18 & 0x3F) == a / 4) by (bit_vector) requires val == (a as usize) << 16 | (b as usize) << 8 | (c as usize);
+    assert((val >> 12 & 0x3F) == (a % 4) * 16 + b / 16) by (bit_vector) requires val == (a as usize) << 16 | (b as usize) << 8 | (c as usize);
+    assert((val >> 6 & 0x3F) == (b % 16) * 4 + c / 64) by (bit_vector) requires val == (a as usize) << 16 | (b as usize) << 8 | (c as usize);
+    assert((val & 0x3F) == c % 64) by (bit_vector) requires val == (a as usize) << 16 | (b as usize) << 8 | (c as usize);
+}
+/// encoding distributes over concatenation when the first part consists of whole 3-octet groups
+pub proof fn lemma_rfc4648_concat(s: Seq<u8>, t: Seq<u8>)
+    requires s.len() % 3 == 0,
+    ensures rfc4648_url(s + t) == rfc4648_url(s) + rfc4648_url(t),
+    decreases s.len()
+{
+    if s.len() == 0 {
+        assert(s + t =~= t);
+        assert(rfc4648_url(s) + rfc4648_url(t) =~= rfc4648_url(t));
+    } else {
+        assert((s + t).skip(3) =~= s.skip(3) + t);
+        lemma_rfc4648_concat(s.skip(3), t);
+        assert(rfc4648_url(s + t) =~= rfc4648_url(s) + rfc4648_url(t));
+    }
+}
+
 // ---------------------------------------------------------------------------------------------------------------
 // WebAuthn authenticator-data flags (https://www.w3.org/TR/webauthn-2/#flags): bit 0 UP, bit 2 UV, bit 3 BE, bit 4 BS.
 // ---------------------------------------------------------------------------------------------------------------
